@@ -295,6 +295,18 @@ func judgeRequest(run *ev.Run, router int, wc *wctx, cs *caseSpec, h *hintSpec, 
 				return
 			}
 			if anyRegistered {
+				// the requested, registered URI with the state pushed behind its fragment: a client reading the query finds none
+				if cs.HasState && cs.State != "" && len(statesOf(t.uri)) == 0 {
+					for _, u := range requested {
+						if o, _ := provenRegistered(u); !o || !strings.Contains(u, "#") {
+							continue
+						}
+						if rest, ok := strings.CutPrefix(t.uri, u); ok && (strings.HasPrefix(rest, "?state=") || strings.HasPrefix(rest, "&state=")) {
+							violated("state", "behind-fragment:"+cs.SClass, fmt.Sprintf("the supplied state %q was appended behind the fragment of the registered URI %q: %s %q carries no state parameter", cs.State, u, t.source, t.uri))
+							return
+						}
+					}
+				}
 				run.Count("grey", "registered-uri-mangled:"+cs.UClass+":"+cs.A)
 			} else {
 				run.Count("grey", "other-target-without-requested-uri")
